@@ -388,6 +388,82 @@ func factsWalletTx() {
 		})
 		return found
 	}
+	// write transactions reachable from a method: db.Update call sites in the method and, through calls by name, in the
+	// package's own functions and methods; a site inside a loop counts twice; capped at 9
+	byName := map[string][]*ast.FuncDecl{}
+	for _, f := range p.files {
+		for _, decl := range f.Decls {
+			if fd, ok := decl.(*ast.FuncDecl); ok && fd.Body != nil {
+				byName[fd.Name.Name] = append(byName[fd.Name.Name], fd)
+			}
+		}
+	}
+	memo := map[*ast.FuncDecl]int{}
+	visiting := map[*ast.FuncDecl]bool{}
+	var reach func(fd *ast.FuncDecl) int
+	var walk func(n ast.Node, mult int) int
+	walk = func(n ast.Node, mult int) int {
+		total := 0
+		ast.Inspect(n, func(m ast.Node) bool {
+			if m == n || m == nil {
+				return true
+			}
+			switch x := m.(type) {
+			case *ast.ForStmt:
+				total += walk(x.Body, 2*mult)
+				return false
+			case *ast.RangeStmt:
+				total += walk(x.X, mult) + walk(x.Body, 2*mult)
+				return false
+			case *ast.CallExpr:
+				switch f := x.Fun.(type) {
+				case *ast.SelectorExpr:
+					if id, ok := f.X.(*ast.Ident); ok && id.Name == "db" && f.Sel.Name == "Update" {
+						total += mult
+					} else {
+						best := 0
+						for _, callee := range byName[f.Sel.Name] {
+							if callee.Recv != nil {
+								if c := reach(callee); c > best {
+									best = c
+								}
+							}
+						}
+						total += mult * best
+					}
+				case *ast.Ident:
+					for _, callee := range byName[f.Name] {
+						if callee.Recv == nil {
+							total += mult * reach(callee)
+						}
+					}
+				}
+			}
+			return true
+		})
+		if total > 9 {
+			total = 9
+		}
+		return total
+	}
+	reach = func(fd *ast.FuncDecl) int {
+		if v, ok := memo[fd]; ok {
+			return v
+		}
+		if visiting[fd] {
+			return 0
+		}
+		visiting[fd] = true
+		v := walk(fd.Body, 1)
+		visiting[fd] = false
+		memo[fd] = v
+		return v
+	}
+	var txc []string
+	for _, name := range names {
+		txc = append(txc, fmt.Sprintf("(%s, %d)", leanStr(name), reach(methods["KeystoreManagerForPoC."+name])))
+	}
+	emit("/-- exported methods of `KeystoreManagerForPoC`: write transactions (`db.Update` call sites) reachable from the method\n    through the package's own functions and methods; a site inside a loop counts twice; capped at 9 -/\ndef walletTxReach : List (String × Nat) := [\n  %s]", strings.Join(txc, ",\n  "))
 	var items []string
 	for _, name := range names {
 		fd := methods["KeystoreManagerForPoC."+name]
